@@ -64,6 +64,7 @@ pub fn any<T: Arbitrary>() -> T {
 /// a violated assumption means the recorded trace does not go through here: unwind quietly
 pub fn assume(c: bool) {
     if !c {
+        eprintln!("VERIF-ASSUME-FAILED: the recorded values do not satisfy a harness assumption");
         std::panic::resume_unwind(Box::new(AssumeFailed));
     }
 }
@@ -71,6 +72,3 @@ pub fn assume(c: bool) {
 pub fn assert(c: bool, msg: &'static str) {
     assert!(c, "{}", msg);
 }
-
-#[macro_export]
-macro_rules! verif_cover { ($($t:tt)*) => {}; }
